@@ -251,6 +251,7 @@ type Ledger struct {
 	Ops     int            // filesystem operations seen (fault index space)
 	OpLog   []string       // kind:name per op (bounded)
 	FailAt  int            // operation index to fail (-1 none)
+	FailAt2 int            // second operation index to fail (-1 none)
 	FailErr error
 	ShortAt int // read op index to cut short (-1 none)
 	ShortTo int // bytes
@@ -261,7 +262,7 @@ type Ledger struct {
 }
 
 func NewLedger() *Ledger {
-	return &Ledger{Open: map[int]string{}, FailAt: -1, ShortAt: -1}
+	return &Ledger{Open: map[int]string{}, FailAt: -1, FailAt2: -1, ShortAt: -1}
 }
 
 // op registers one operation; returns the injected error if this is the one to fail.
@@ -273,7 +274,7 @@ func (l *Ledger) op(kind, name string) error {
 	if len(l.OpLog) < 4000 {
 		l.OpLog = append(l.OpLog, kind+":"+name)
 	}
-	if idx == l.FailAt {
+	if idx == l.FailAt || idx == l.FailAt2 {
 		l.Fired = append(l.Fired, fmt.Sprintf("fail op#%d %s:%s", idx, kind, name))
 		l.OpenAtFire = len(l.Open)
 		if l.FailErr != nil {
@@ -320,6 +321,26 @@ func (l *Ledger) closed(id int) {
 		delete(l.Open, id)
 		l.Closed++
 	}
+}
+
+// HasFired reports whether an injected fault has fired.
+func (l *Ledger) HasFired() bool {
+	l.mu.Lock()
+	defer l.mu.Unlock()
+	return len(l.Fired) > 0
+}
+
+func (l *Ledger) FiredList() []string {
+	l.mu.Lock()
+	defer l.mu.Unlock()
+	return append([]string(nil), l.Fired...)
+}
+
+// Disarm switches all pending faults off.
+func (l *Ledger) Disarm() {
+	l.mu.Lock()
+	defer l.mu.Unlock()
+	l.FailAt, l.FailAt2, l.ShortAt = -1, -1, -1
 }
 
 // Leaked lists the names of handles that are still open.
